@@ -669,11 +669,14 @@ func (up4 *UP4) getGTPTunnelPeer(tnlParams tunnelParams) (tunnelPeer, bool) {
 	return tnlPeer, exists
 }
 
-func (up4 *UP4) addOrUpdateGTPTunnelPeer(far far) error {
+// addOrUpdateGTPTunnelPeer returns true if the FAR was not registered with the tunnel peer before.
+func (up4 *UP4) addOrUpdateGTPTunnelPeer(far far) (bool, error) {
 	up4.tunnelPeerMu.Lock()
 	defer up4.tunnelPeerMu.Unlock()
 
 	var tnlPeer tunnelPeer
+
+	newReference := true
 
 	methodType := p4.Update_MODIFY
 	tunnelParameters := tunnelParams{
@@ -686,7 +689,7 @@ func (up4 *UP4) addOrUpdateGTPTunnelPeer(far far) error {
 	if !exists {
 		newID, err := up4.unsafeAllocateGTPTunnelPeerID()
 		if err != nil {
-			return err
+			return false, err
 		}
 
 		tnlPeer = tunnelPeer{
@@ -701,31 +704,36 @@ func (up4 *UP4) addOrUpdateGTPTunnelPeer(far far) error {
 		// tunnel peer already exists.
 		// since we use Set to keep track of tunnel peers in use,
 		// it will not be added to the set if tunnel peer was already created for this UE session.
-		tnlPeer.usedBy.Add(tnlPeerReference{
+		newReference = tnlPeer.usedBy.Add(tnlPeerReference{
 			far.fseID, far.farID,
 		})
 	}
 
 	releaseTnlPeerID := func() {
 		if !exists {
-			up4.unsafeReleaseAllocatedGTPTunnelPeer(tunnelParameters)
+			// the ID is not registered yet: it goes straight back to the pool
+			up4.tunnelPeerIDsPool = append(up4.tunnelPeerIDsPool, tnlPeer.id)
+		} else if newReference {
+			tnlPeer.usedBy.Remove(tnlPeerReference{
+				far.fseID, far.farID,
+			})
 		}
 	}
 
 	gtpTunnelPeerEntry, err := up4.p4RtTranslator.BuildGTPTunnelPeerTableEntry(tnlPeer.id, tunnelParameters)
 	if err != nil {
 		releaseTnlPeerID()
-		return err
+		return false, err
 	}
 
 	if err := up4.p4client.ApplyTableEntries(methodType, gtpTunnelPeerEntry); err != nil {
 		releaseTnlPeerID()
-		return err
+		return false, err
 	}
 
 	up4.tunnelPeerIDs[tunnelParameters] = tnlPeer
 
-	return nil
+	return newReference, nil
 }
 
 func (up4 *UP4) removeGTPTunnelPeer(far far) {
@@ -967,19 +975,35 @@ func (up4 *UP4) removeUeAddrAndFSEIDMappings(pdr pdr) {
 	delete(up4.fseidToUEAddr, pdr.fseID)
 }
 
-func (up4 *UP4) updateTunnelPeersBasedOnFARs(fars []far) error {
+// updateTunnelPeersBasedOnFARs returns the FARs that were newly registered with a tunnel peer,
+// so that the caller can withdraw them if the request fails later on.
+func (up4 *UP4) updateTunnelPeersBasedOnFARs(fars []far) ([]far, error) {
+	newlyRegistered := make([]far, 0)
+
 	for _, far := range fars {
 		logger := logger.PfcpLog.With("far", far)
 		// downlink FAR with tunnel params that does encapsulation
 		if far.Forwards() && far.dstIntf == ie.DstInterfaceAccess && far.tunnelTEID != 0 {
-			if err := up4.addOrUpdateGTPTunnelPeer(far); err != nil {
+			added, err := up4.addOrUpdateGTPTunnelPeer(far)
+			if err != nil {
 				logger.Errorf("failed to add or update GTP tunnel peer: %v", err)
-				return err
+				return newlyRegistered, err
+			}
+
+			if added {
+				newlyRegistered = append(newlyRegistered, far)
 			}
 		}
 	}
 
-	return nil
+	return newlyRegistered, nil
+}
+
+// withdrawTunnelPeers undoes the registrations of a request that failed.
+func (up4 *UP4) withdrawTunnelPeers(fars []far) {
+	for _, f := range fars {
+		up4.removeGTPTunnelPeer(f)
+	}
 }
 
 func getMeterConfigurationFromQER(mbr uint64, gbr uint64) *p4.MeterConfig {
@@ -1501,13 +1525,16 @@ func (up4 *UP4) sendCreate(all PacketForwardingRules, updated PacketForwardingRu
 		return err
 	}
 
-	if err := up4.updateTunnelPeersBasedOnFARs(updated.fars); err != nil {
+	newTunnelPeerUsers, err := up4.updateTunnelPeersBasedOnFARs(updated.fars)
+	if err != nil {
 		// TODO: revert operations (e.g. reset counter)
+		up4.withdrawTunnelPeers(newTunnelPeerUsers)
 		return err
 	}
 
 	if err := up4.modifyUP4ForwardingConfiguration(all.pdrs, all.fars, all.qers, p4.Update_INSERT); err != nil {
 		// TODO: revert operations (e.g. reset counter)
+		up4.withdrawTunnelPeers(newTunnelPeerUsers)
 		return err
 	}
 
@@ -1520,11 +1547,15 @@ func (up4 *UP4) sendUpdate(all PacketForwardingRules, updated PacketForwardingRu
 		up4.updateUEAddrAndFSEIDMappings(p)
 	}
 
-	if err := up4.updateTunnelPeersBasedOnFARs(updated.fars); err != nil {
+	newTunnelPeerUsers, err := up4.updateTunnelPeersBasedOnFARs(updated.fars)
+	if err != nil {
+		up4.withdrawTunnelPeers(newTunnelPeerUsers)
 		return err
 	}
 
 	if err := up4.modifyUP4ForwardingConfiguration(all.pdrs, all.fars, all.qers, p4.Update_MODIFY); err != nil {
+		// the request is rejected and the session keeps its rules: FARs it does not have must not hold tunnel peers
+		up4.withdrawTunnelPeers(newTunnelPeerUsers)
 		return err
 	}
 
